@@ -7,7 +7,7 @@ import warnings
 
 import torch
 
-from common import BUILD, Infra, time_limit
+from common import BUILD, Infra, parse_sx, sx, time_limit
 from c11_canon import bits, canon, first_diff
 from c11_hist import mk_tensor
 
@@ -26,6 +26,27 @@ def write_in_child(path, key, value):
     td = TensorDict.load_memmap(path)
     td[key].fill_(value)
     return True
+
+
+def td_blob(td):
+    """what multiprocessing sends for `td` (ForkingPickler); unpickled *inside* the worker function so that a failure there comes back as an
+    answer (a task that cannot be unpickled kills the pool worker and the call never returns)"""
+    from multiprocessing.reduction import ForkingPickler
+    return bytes(ForkingPickler.dumps(td))
+
+
+def blob_in_child(blob, key=None, value=None):
+    """run in a worker process: rebuild the memory-mapped tensordict that crossed the process boundary; report what it holds there (key None)
+    or write through it"""
+    import pickle
+    try:
+        td = pickle.loads(blob)
+        if key is None:
+            return canon(td, **OPTS)
+        td[key].fill_(value)
+        return True
+    except Exception as e:  # noqa: BLE001
+        return f"raised {type(e).__name__}: {str(e)[:200]}"
 
 
 def write_td_in_child(td, key, value):
@@ -91,7 +112,7 @@ def gen(rng, kind, b):
 KINDS = ["lazy", "lazy-nested", "tensorclass", "tensorclass-nested", "nontensor-stack", "views", "rank0", "lazy-dim1", "lazy-in-lazy"]
 
 
-def run_ext(run):
+def run_ext(run, drv=None):
     from tensordict import TensorDict
     import torch.multiprocessing as mp
     rng = run.rng
@@ -180,6 +201,164 @@ def run_ext(run):
                 else:
                     run.oracle_fail("memmap_like_structure(ext)", {"kind": kind, "batch": b}, f"memmap_like of a {kind} tensordict: {diff}", f"{kind}:memmap_like")
                 shutil.rmtree(d, ignore_errors=True)
+            # ---- what a saved / loaded tensordict says about itself: memory-mapped, where, and every tensor entry is a MemoryMappedTensor on a
+            #      file of that directory; a relative prefix is the same directory as its absolute form; load_memmap(device="cpu") equals the
+            #      default load; make_memmap on an existing key is refused and leaves the entry alone
+            import os as _os
+            from tensordict import MemoryMappedTensor as _MMT
+            for it in range(8 if quick else 40):
+                b = rng.choice([[2], [3], []])
+                td = TensorDict({"a": mk_tensor(None, rng.choice([torch.float32, torch.int64, torch.bool]), b + [2], it),
+                                 "n": {"x": mk_tensor(None, torch.int16, b, it + 1), "m": {"z": mk_tensor(None, torch.float64, b + [1], it + 2)}}}, b)
+                d = root / f"self{it}"
+                api = ["memmap", "memmap_", "save"][it % 3]
+                nt = rng.choice([0, 2])
+                case = {"api": api, "num_threads": nt, "batch": b, "relative": bool(it % 2)}
+                run.case(("self-description", it, api, nt))
+                cwd = _os.getcwd()
+                try:
+                    with time_limit(120):
+                        src = td.clone() if api == "memmap_" else td
+                        if it % 2:
+                            _os.chdir(root)
+                            try:
+                                out = getattr(src, api)(f"self{it}", num_threads=nt)
+                            finally:
+                                _os.chdir(cwd)
+                        else:
+                            out = getattr(src, api)(d, num_threads=nt)
+                        saved = src if out is None else out
+                        loaded = TensorDict.load_memmap(d)
+                        problems = []
+                        for who, x in (("saved", saved), ("loaded", loaded)):
+                            # (a tensordict returned by load_memmap maps the files but does not claim the directory: `.memmap_()` does that)
+                            if who == "saved":
+                                if not x.is_memmap():
+                                    problems.append(f"{who}.is_memmap() is False")
+                                sp = getattr(x, "saved_path", None)
+                                if sp is None or _os.path.realpath(_os.path.join(str(root), str(sp))) != _os.path.realpath(str(d)):
+                                    problems.append(f"{who}.saved_path = {sp}")
+                            for k, v in x.items(True, True):
+                                if not isinstance(v, _MMT):
+                                    problems.append(f"{who}[{k}] is a {type(v).__name__}")
+                                elif v.numel() and _os.path.realpath(_os.path.join(str(root), str(v.filename))) != _os.path.realpath(str(d.joinpath(*((k,) if isinstance(k, str) else k)).with_name(((k,) if isinstance(k, str) else k)[-1] + ".memmap"))):
+                                    problems.append(f"{who}[{k}].filename = {v.filename}")
+                            for k, v in x.items(True):
+                                if who == "saved" and hasattr(v, "is_memmap") and hasattr(v, "keys") and not v.is_memmap():
+                                    problems.append(f"{who}[{k}].is_memmap() is False")
+                        if first_diff(canon(loaded, **OPTS), canon(TensorDict.load_memmap(d, device="cpu"), **OPTS)):
+                            problems.append("load_memmap(device='cpu') differs from load_memmap()")
+                        try:
+                            loaded.make_memmap("a", shape=torch.Size(b + [2]), dtype=torch.float32)
+                            problems.append("make_memmap on an existing key was accepted")
+                        except (RuntimeError, KeyError, ValueError):
+                            pass
+                        if first_diff(canon(td, **OPTS), canon(TensorDict.load_memmap(d), **OPTS)):
+                            problems.append("the directory no longer loads as the tensordict saved after the refused make_memmap")
+                    res = "; ".join(problems[:4]) or None
+                except TimeoutError as e:
+                    raise Infra(f"memmap timed out: {e}")
+                except Exception as e:  # noqa: BLE001
+                    res = f"raised {type(e).__name__}: {str(e)[:150]}"
+                finally:
+                    _os.chdir(cwd)
+                if res is None:
+                    run.oracle_ok("memmap_self_description")
+                else:
+                    run.oracle_fail("memmap_self_description", case, f"{api}(num_threads={nt}): {res}", "self-description")
+                shutil.rmtree(d, ignore_errors=True)
+            # ---- the same RELATIVE prefix used from two working directories (os.chdir between the two saves): each save lives in its own
+            #      directory; what the second saved tensordict says about its files (absolute file names under the second directory) is what
+            #      a reader in another process maps when the tensordict is sent to it: it sees the second tensordict's values, its writes
+            #      reach the saver and a later load, and the first save is left alone. Also for load_memmap(relative) after a chdir.
+            cwd0 = _os.getcwd()
+            for it in range(6 if quick else 30):
+                b = rng.choice([[2], [3]])
+                rel = ["ckpt", "runs/ckpt", "./ckpt"][it % 3]
+                apis = [rng.choice(["memmap", "memmap_", "save"]), rng.choice(["memmap", "memmap_", "save"])]
+                via = ["saved", "loaded-relative"][it % 2]
+                case = {"relative_prefix": rel, "apis": apis, "sent": via, "batch": b}
+                run.case(("chdir", it, rel, tuple(apis), via))
+                dirs = [root / f"cwd{it}_A", root / f"cwd{it}_B"]
+                tds = [TensorDict({"a": mk_tensor(None, torch.float32, b + [2], 10 * it + j), "n": {"x": mk_tensor(None, torch.int64, b, 10 * it + j + 3)}}, b) for j in (0, 1)]
+                refs = [canon(t, **OPTS) for t in tds]
+                problems = []
+                try:
+                    with time_limit(180):
+                        saved = []
+                        for j in (0, 1):
+                            dirs[j].mkdir(parents=True)
+                            _os.chdir(dirs[j])
+                            src = tds[j].clone()
+                            out = getattr(src, apis[j])(rel, num_threads=rng.choice([0, 2]))
+                            saved.append(out if out is not None else src)
+                        if via == "loaded-relative":
+                            sent = TensorDict.load_memmap(rel)      # cwd is still the second directory
+                        else:
+                            sent = saved[1]
+                        _os.chdir(cwd0)
+                        absdirs = [_os.path.realpath(dirs[j] / rel) for j in (0, 1)]
+                        for j, t in ((0, saved[0]), (1, saved[1]), (1, sent)):
+                            for k in ("a", ("n", "x")):
+                                fn = getattr(t.get(k), "filename", None)
+                                if fn is None or not _os.path.realpath(str(fn)).startswith(absdirs[j] + _os.sep):
+                                    problems.append(f"entry {k} of the tensordict saved under {['first', 'second'][j]}-directory/{rel} says its file is {fn}")
+                        for j in (0, 1):
+                            dd = first_diff(refs[j], canon(TensorDict.load_memmap(absdirs[j]), **OPTS))
+                            if dd:
+                                problems.append(f"{['first', 'second'][j]} directory loads differently from what was saved there: {dd}")
+                        for method, pool in pools.items():
+                            seen = pool.apply(blob_in_child, (td_blob(sent),))
+                            dd = seen if isinstance(seen, str) else first_diff(refs[1], seen)
+                            if dd:
+                                problems.append(f"a {method}ed process that receives the second tensordict sees {dd}")
+                            wv = float(100 + it)
+                            wrote = pool.apply(blob_in_child, (td_blob(sent), "a", wv))
+                            if wrote is not True:
+                                problems.append(f"a {method}ed process that receives the second tensordict and writes through it: {wrote}")
+                            elif not bool((sent["a"] == wv).all()) or not bool((TensorDict.load_memmap(absdirs[1])["a"] == wv).all()):
+                                problems.append(f"a write made by a {method}ed process through the second tensordict did not reach the saver / a later load")
+                            if first_diff(refs[0], canon(TensorDict.load_memmap(absdirs[0]), **OPTS)):
+                                problems.append(f"a write made by a {method}ed process through the second tensordict changed the first save")
+                            sent["a"].copy_(tds[1]["a"])
+                    res = "; ".join(problems[:3]) or None
+                except TimeoutError as e:
+                    raise Infra(f"chdir stream timed out: {e}")
+                except Exception as e:  # noqa: BLE001
+                    res = f"raised {type(e).__name__}: {str(e)[:150]}"
+                finally:
+                    _os.chdir(cwd0)
+                if res is None:
+                    run.oracle_ok("relative_prefix_after_chdir")
+                else:
+                    run.oracle_fail("relative_prefix_after_chdir", case, f"the relative prefix {rel!r} used for two saves from two working directories: {res}", "chdir")
+                for dd_ in dirs:
+                    shutil.rmtree(dd_, ignore_errors=True)
+                # a random history of chdir / creation of a memory-mapped tensor under a relative name: the recorded names vs recordedNames
+                if drv is not None:
+                    from tensordict import MemoryMappedTensor as _M2
+                    base = root / f"names{it}"
+                    names = ["D0", "D1", "D2"]
+                    for nm in names:
+                        (base / nm / "sub").mkdir(parents=True)
+                    ops, got_names = [], []
+                    try:
+                        _os.chdir(base / names[0])
+                        ops.append(["chdir", names[0]])
+                        for _ in range(rng.randint(4, 8)):
+                            if rng.random() < 0.4:
+                                nm = rng.choice(names)
+                                _os.chdir(base / nm)
+                                ops.append(["chdir", nm])
+                            else:
+                                relf = rng.choice(["x.memmap", "sub/x.memmap", "./x.memmap", "y.memmap"])
+                                t_ = _M2.from_tensor(torch.zeros(2), filename=relf, existsok=True)
+                                ops.append(["save"] + [p_ for p_ in relf.split("/") if p_ != "."])
+                                got_names.append(list(_os.path.relpath(t_._filename, _os.path.realpath(base)).split(_os.sep)))
+                    finally:
+                        _os.chdir(cwd0)
+                    run.corr("recorded_file_names(chdir history)", {"ops": ops}, got_names, [list(x) for x in parse_sx(drv.ask(sx("c10.names", ops)))])
+                    shutil.rmtree(base, ignore_errors=True)
             # ---- a writer task that fails makes the save fail, whatever the number of threads (same outcome as num_threads=0)
             for it in range(6 if quick else 24):
                 b = rng.choice([[2], [3]])
@@ -320,6 +499,62 @@ def run_ext(run):
                 else:
                     run.oracle_fail("make_memmap_from_*", case, f"after make_memmap_from_tensor / _from_storage / nested make_memmap: {res3}", "make_from")
                 shutil.rmtree(d3, ignore_errors=True)
+                # a leaf that is a nested tensor (components of different lengths): its data file and its `<key>.shape.memmap` side file.
+                #   save + load; make_memmap_from_tensor(copy_data=True / False) on a mapped tensordict + a fresh load (the component shapes
+                #   must be those of the tensor in both cases: copy_data only decides whether the *values* are written); memmap_like
+                def comps(x):
+                    return [[list(t.shape), str(t.dtype), t.reshape(-1).to(torch.float64).tolist()] for t in x.unbind(0)]
+                nb = b[0]
+                ndt = rng.choice([torch.float32, torch.int64, torch.int16])
+                feat = rng.choice([[], [2]])
+                parts = [torch.tensor([rng.randint(0, 120) for _ in range(n_ * (2 if feat else 1))], dtype=ndt).reshape([n_] + feat)
+                         for n_ in [rng.randint(1, 5) for _ in range(nb)]]
+                nested = torch.nested.nested_tensor(parts)
+                zero_parts = [[list(t.shape), str(t.dtype), [0.0] * t.numel()] for t in parts]
+                for how in ("memmap", "make(copy_data=True)", "make(copy_data=False)", "make(nested key, copy_data=False)", "memmap_like"):
+                    d4 = root / f"w{it}_nested"
+                    ncase = {"how": how, "components": [list(t.shape) for t in parts], "dtype": str(ndt)}
+                    run.case(("nested-leaf", it, how))
+                    want = zero_parts if ("False" in how or how == "memmap_like") else comps(nested)
+                    try:
+                        with time_limit(120):
+                            if how == "memmap":
+                                out = TensorDict({"a": mk_tensor(None, torch.float32, [nb, 2], it), "j": nested}, [nb]).memmap(d4, num_threads=rng.choice([0, 2]))
+                                got_here = comps(out["j"])
+                                key = "j"
+                            elif how == "memmap_like":
+                                out = TensorDict({"a": mk_tensor(None, torch.float32, [nb, 2], it), "j": nested}, [nb]).memmap_like(d4)
+                                got_here = comps(out["j"])
+                                key = "j"
+                            else:
+                                mm = TensorDict({"a": mk_tensor(None, torch.float32, [nb, 2], it)}, [nb]).memmap(d4)
+                                key = ("sub", "j") if "nested key" in how else "j"
+                                ret = mm.make_memmap_from_tensor(key, nested, copy_data="True" in how)
+                                got_here = comps(mm[key])
+                                if comps(ret) != got_here:
+                                    got_here = ["returned tensor differs from the entry", comps(ret), got_here]
+                            got_load = comps(TensorDict.load_memmap(d4)[key])
+                            if drv is not None and how != "memmap_like":
+                                # the two files and what a load rebuilds against populateNested / loadNested (Model/C10Nested.lean)
+                                fdir = d4 / "sub" if isinstance(key, tuple) else d4
+                                rank = 1 + len(feat)
+                                sfile = torch.from_file(str(fdir / "j.shape.memmap"), shared=False, dtype=torch.int64, size=nb * rank).tolist()
+                                dfile = torch.from_file(str(fdir / "j.memmap"), shared=False, dtype=ndt, size=sum(t.numel() for t in parts)).to(torch.int64).tolist()
+                                impl_n = ["ok", sfile, dfile, [[c[0], [int(v) for v in c[2]]] for c in got_load]]
+                                mdl = parse_sx(drv.ask(sx("c10.nested", [[list(t.shape), t.reshape(-1).to(torch.int64).tolist()] for t in parts], rank, "False" in how)))
+                                model_n = ["ok", list(mdl[1]), list(mdl[2]), [[list(c[0]), list(c[1])] for c in mdl[3]]] if mdl[0] == "ok" else ["err"]
+                                run.corr("nested_leaf(shape file, data file, loaded components)", ncase, impl_n, model_n)
+                        resn = None if got_here == want and got_load == want else f"components (shape, dtype, values) in the saver {got_here}, after a fresh load {got_load}, expected {want}"
+                    except TimeoutError as e:
+                        raise Infra(f"nested leaf timed out: {e}")
+                    except Exception as e:  # noqa: BLE001
+                        resn = f"raised {type(e).__name__}: {str(e)[:120]}"
+                    if resn is None:
+                        run.oracle_ok("nested_tensor_leaf")
+                    else:
+                        tagn = ("raise-" + resn.split(":")[0][7:]) if resn.startswith("raised") else "differs"
+                        run.oracle_fail("nested_tensor_leaf", ncase, f"nested-tensor leaf, {how}: {resn}", f"nested-leaf:{how.split('(')[0]}:{tagn}")
+                    shutil.rmtree(d4, ignore_errors=True)
                 # copy_existing: an entry that already lives in another directory
                 d2 = root / f"w{it}_copy"
                 try:
@@ -514,7 +749,18 @@ def run_ext(run):
                 "slash-key-beside-node": lambda: TensorDict({"a": {"b": torch.ones(3)}, "a/b": torch.zeros(3)}, [3]),
                 "node-named-like-a-file": lambda: TensorDict({"x": torch.ones(3), "x.memmap": {"y": torch.zeros(3)}}, [3]),
                 "node-named-meta-json": lambda: TensorDict({"x": torch.ones(3), "meta.json": {"y": torch.zeros(3)}}, [3]),
+                # the side file of a nested-tensor leaf `a` is `a.shape.memmap`: the file of a leaf keyed `a.shape`
+                "shape-key-beside-nested-leaf": lambda: TensorDict({"a": torch.nested.nested_tensor([torch.arange(3.0), torch.arange(5.0)]), "a.shape": torch.tensor([[7], [9]])}, [2]),
             }
+
+            def nested_diff(td, loaded):
+                for k in td.keys():
+                    x, y = td[k], loaded[k]
+                    xs = [t.tolist() for t in x.unbind(0)] if x.is_nested else x.tolist()
+                    ys = [t.tolist() for t in y.unbind(0)] if y.is_nested else y.tolist()
+                    if xs != ys:
+                        return f"entry {k!r} saved as {xs} loads as {ys}"
+                return None
             for name, mk in excluded.items():
                 d = root / f"ex_{name}"
                 td = mk()
@@ -522,7 +768,10 @@ def run_ext(run):
                 try:
                     with time_limit(180):
                         td.memmap(d)
-                        diff = first_diff(canon(td, **OPTS), canon(TensorDict.load_memmap(d), **OPTS))
+                        if name == "shape-key-beside-nested-leaf":
+                            diff = nested_diff(td, TensorDict.load_memmap(d))
+                        else:
+                            diff = first_diff(canon(td, **OPTS), canon(TensorDict.load_memmap(d), **OPTS))
                     what = "round-trips" if diff is None else f"silently differs: {diff}"
                 except Exception as e:  # noqa: BLE001
                     what = f"raises {type(e).__name__}"
